@@ -20,7 +20,7 @@ DEFER = ("<ebr_impl::guard::Guard as utils::Deferable>::defer_with_inner",
          "<std::option::Option<&ebr_impl::guard::Guard> as utils::Deferable>::defer_with_inner",
          "utils::Deferable::defer_with_inner")
 PTR_UNWRAP = {"ebr_impl::pointers::Tagged::deref", "ebr_impl::pointers::Tagged::deref_mut",
-              "ebr_impl::pointers::Tagged::as_raw", "ebr_impl::pointers::Tagged::as_ref",
+              "ebr_impl::pointers::Tagged::as_raw", "ebr_impl::pointers::Tagged::as_ref", "ebr_impl::pointers::Tagged::as_mut",
               "std::ptr::mut_ptr::as_ref", "std::ptr::mut_ptr::as_mut", "std::ptr::const_ptr::as_ref",
               "ebr_impl::pointers::Tagged::with_tag", "ebr_impl::pointers::Tagged::with_high_tag",
               "strong::with_timestamp",
